@@ -29,8 +29,10 @@ func (bu *btbBranchUnit) assert(runner risc.InstructionRunnerPc) {
 			bu.toCheck = true
 			bu.expectation = -1
 		} else {
-			// Known branch, no need to check
-			bu.toCheck = false
+			// Known branch: follow the prediction, but a computed jump (jalr) may
+			// go elsewhere this time, so the resolved target is still compared with it
+			bu.toCheck = true
+			bu.expectation = nextPc
 			bu.fu.reset(nextPc, true)
 		}
 	} else if instructionType.IsConditionalBranch() {
